@@ -258,6 +258,8 @@ struct RCell {
   rcvtimeo: i32,
   multipart: bool,
   connected: bool,
+  /// while the call waits, further silent peers attach (every RCVTIMEO/3) and one detaches
+  churn: bool,
 }
 
 fn run_rcell(c: RCell) -> world::WorldResult<(String, u64, Option<bool>)> {
@@ -285,6 +287,28 @@ fn run_rcell(c: RCell) -> world::WorldResult<(String, u64, Option<bool>)> {
       std::mem::forget(l);
       settle_n(4).await;
       peer = Some(p);
+    }
+    // peers that come and go during the wait never send anything: they must not extend the timeout
+    if c.churn && c.rcvtimeo > 0 {
+      let (ctx2, s3, step) = (ctx.clone(), s.clone(), (c.rcvtimeo as u64 / 3).max(1));
+      tokio::spawn(async move {
+        let mut kept = vec![];
+        for k in 0..12 {
+          tokio::time::sleep(Duration::from_millis(step)).await;
+          let p = stack::mk(&ctx2, peer_ty, &[(o::LINGER, 0), (o::SNDTIMEO, 100)]).await;
+          let l = stack::link_pair(&p, &s3, 4096).await;
+          std::mem::forget(l);
+          kept.push(p);
+          if k % 3 == 2 {
+            if let Some(old) = kept.first().cloned() {
+              let _ = old.close().await;
+              kept.remove(0);
+            }
+          }
+        }
+        tokio::time::sleep(Duration::from_secs(7200)).await;
+        drop(kept);
+      });
     }
     let t0 = Instant::now();
     let s2 = s.clone();
@@ -388,20 +412,23 @@ pub fn run(tier: Tier) -> Report {
     for rcvtimeo in [0, 1, 50, 500, -1] {
       for multipart in [false, true] {
         for connected in [false, true] {
-          rc.push(RCell { ty, rcvtimeo, multipart, connected });
+          rc.push(RCell { ty, rcvtimeo, multipart, connected, churn: false });
+          if rcvtimeo >= 50 {
+            rc.push(RCell { ty, rcvtimeo, multipart, connected, churn: true });
+          }
         }
       }
     }
   }
   let mut sub = Sub::new("rcvtimeo", "E3");
-  sub.rule = "case = one world per (receiving socket type, RCVTIMEO, recv|recv_multipart, connected or not): a receive call on an empty socket; oracle: 0 -> immediate would-block, t>0 -> timeout/would-block in [t, t+100 ms] virtual, -1 -> pending after 1 h and completed by the next message".into();
+  sub.rule = "case = one world per (receiving socket type, RCVTIMEO, recv|recv_multipart, connected or not): a receive call on an empty socket, optionally while silent peers attach every RCVTIMEO/3 and detach; oracle: 0 -> immediate would-block, t>0 -> timeout/would-block in [t, t+100 ms] virtual, -1 -> pending after 1 h and completed by the next message".into();
   sub.bounds = json!({"cells": rc.len()});
   par::enumerate(&mut sub, rc.len(), |i| {
     let c = rc[i];
     let r = run_rcell(c);
     let wit = json!({"explorer": "e3", "cell": format!("{:?}", c)});
     let mut case = Case { steps: 2, nontrivial: true, ..Default::default() };
-    let class = format!("{:?}:rcvtimeo{}:{}", c.ty, c.rcvtimeo, if c.multipart { "recv_multipart" } else { "recv" });
+    let class = format!("{:?}:rcvtimeo{}:{}{}", c.ty, c.rcvtimeo, if c.multipart { "recv_multipart" } else { "recv" }, if c.churn { ":peer-churn" } else { "" });
     for p in &r.panics {
       case.violations.push(("panic".into(), p.rsplit(" @ ").next().map(mc_core::short_loc).unwrap_or_default(), p.clone(), wit.clone()));
     }
